@@ -2,8 +2,6 @@
    accounting (linv), preserved by every accepted step. *)
 From Verif Require Export Percolator.Layer2.
 
-Fixpoint occ (k : N) (ks : list N) : N :=
-  match ks with [] => 0 | k' :: r => (if k' =? k then 1 else 0) + occ k r end.
 Lemma occ_pos : forall k ks, In k ks -> 0 < occ k ks.
 Proof.
   induction ks as [| k' ks IH]; intros H; [destruct H |]. cbn [occ]. destruct H as [-> | H].
